@@ -206,6 +206,30 @@ def gen_tree(rng, depth, dirty):
     return d
 
 
+def shards_with_hyp(fn, hypfn, cases, parts=32):
+    """shard terms evaluating fn and hypfn on the same case list (the big case terms are parsed once):
+    verdicts of a shard = [fn c1 .. fn cn] ++ [hypfn c1 .. hypfn cn]; returns (shards, sizes)"""
+    cases = list(cases)
+    size = max(1, -(-len(cases) // parts))
+    shards, sizes = [], []
+    for i in range(0, len(cases), size):
+        chunk = cases[i:i + size]
+        shards.append(f"(let l := {emit.lst(chunk)} in List.map {fn} l ++ List.map {hypfn} l)%list")
+        sizes.append(len(chunk))
+    return shards, sizes
+
+
+def split_with_hyp(vs, sizes):
+    """-> (verdicts, hypothesis codes) or (None, None)"""
+    main, hyp = [], []
+    for v, n in zip(vs, sizes):
+        if v is None or len(v) != 2 * n:
+            return None, None
+        main.extend(v[:n])
+        hyp.extend(v[n:])
+    return main, hyp
+
+
 # ============================================================================= history independence helpers
 MUT = "__mutated__"
 
@@ -1255,7 +1279,7 @@ def run(ctx):
         nontriv = isinstance(v, (list, tuple, set, dict)) and len(v) > 0
         ctx.case(("A", canon(v)), nontrivial=nontriv, sample=rep if nontriv and len(metaA) % 500 == 7 else None)
     ctx.log(f"A: {len(casesA)} codec cases generated")
-    vsA = ctx.coq_cases(emit.shard_terms("check_attr3", casesA, 250), REQ)
+    vsA = ctx.coq_cases(emit.shard_terms("check_attr3", casesA, 100), REQ)
     ctx.log("A: evaluated in Coq")
     flatA = emit.flatten_verdicts(vsA, len(casesA))
 
@@ -1311,24 +1335,21 @@ def run(ctx):
         ctx.case(("B", json.dumps(rep["fields"]), json.dumps(rep["references"]), rep["write_level"], rep["meta"], rep["num_obs"], idx),
                  nontrivial=nontriv, sample=rep if nontriv and len(metaB) % 60 == 11 else None)
     ctx.log(f"B/G: {len(casesG)} datasets written and read")
-    vsB = ctx.coq_cases(emit.shard_terms("check_run", casesB, 12), REQ)
+    shB, szB = shards_with_hyp("check_run", "hyp_case", casesB)
+    flatB, flatH = split_with_hyp(ctx.coq_cases(shB, REQ + "\nFrom Verif Require Import Proofs.C10_FileTop."), szB)
     ctx.log("B: evaluated in Coq")
-    flatB = emit.flatten_verdicts(vsB, len(casesB))
-    vsG = ctx.coq_cases(emit.shard_terms("check_run2", casesG, 12), REQ2)
-    ctx.log("G: evaluated in Coq")
-    flatG = emit.flatten_verdicts(vsG, len(casesG))
-    vsH2 = ctx.coq_cases(emit.shard_terms("check_hyp2", hypG, 40), REQ2 + "\nFrom Verif Require Import Proofs.C10_GraphTop.")
-    for h in emit.flatten_verdicts(vsH2, len(hypG)) or []:
-        ctx.count("hypotheses:graph:" + ("gwf" if h else "outside-gwf"))
-    vsR = ctx.coq_cases(emit.shard_terms("check_reread", casesR, 8), REQ)
-    flatR = emit.flatten_verdicts(vsR, len(casesR))
-    # how many generated datasets meet the hypotheses of file_roundtrip (wf, tree_shaped, closed)
-    vsH = ctx.coq_cases(emit.shard_terms("check_hyp", hypB, 40), REQ + "\nFrom Verif Require Import Proofs.C10_FileTop.")
-    flatH = emit.flatten_verdicts(vsH, len(hypB))
+    # how many generated datasets meet the hypotheses of file_roundtrip (wf, tree_shaped, closed) / graph_roundtrip (gwf)
     for h in flatH or []:
         ctx.count("hypotheses:" + "+".join(n for bit, n in ((1, "wf"), (2, "tree"), (4, "closed")) if h & bit))
     if flatH is not None and any(h & 3 != 3 for h in flatH):
         ctx.notes.append("some generated datasets are outside wf/tree_shaped: the generator left the modelled domain")
+    shG, szG = shards_with_hyp("check_run2", "hyp_case2", casesG)
+    flatG, flatH2 = split_with_hyp(ctx.coq_cases(shG, REQ2 + "\nFrom Verif Require Import Proofs.C10_GraphTop."), szG)
+    ctx.log("G: evaluated in Coq")
+    for h in flatH2 or []:
+        ctx.count("hypotheses:graph:" + ("gwf" if h else "outside-gwf"))
+    vsR = ctx.coq_cases(emit.shard_terms("check_reread", casesR, max(1, -(-len(casesR) // 32))), REQ)
+    flatR = emit.flatten_verdicts(vsR, len(casesR))
 
     # ---- C. topologies outside the models' well-formedness domain, judged by the property itself on observables
     casesC, metaC = [], []
